@@ -605,8 +605,8 @@ def main(tier, replay=None):
         chk.violation('obligation', 'proof obligation of C13 no longer checks: %s' % ob['failed'][0],
                       {'theorem_file': 'coq/Props/Properties_C13.v', 'failed': ob['failed'], 'log_tail': ob['log'][-1500:]}, no_input=True)
     chk.assumptions += [
-        'proved for ALL n >= 3, R >= 1, W >= 0, all enabled-position lists: inductive invariant, ownership, order, writers drain, no deadlock / no lost wake-up; n = 2 deadlock witness',
-        'stated but not proved here: a termination measure (every progress step decreases a bounded quantity); scan threads (scan.c) and the stripe computation itself (arrival-order independence of sync.c/scrub.c) are only covered by the differential runs',
+        'proved for ALL n >= 3, R >= 1, W >= 0, all enabled-position lists: inductive invariant, ownership, order, writers drain, no deadlock / no lost wake-up, termination measure (strictly decreasing on every non-wait step); n = 2 deadlock witness',
+        'not proved here: the fairness step from measure + no_deadlock to termination is stated in prose only; scan threads (scan.c) and the stripe computation itself (arrival-order independence of sync.c/scrub.c, DESIGN stripe_arrival_irrelevant) are only covered by the differential runs',
         'the model treats signal/broadcast as part of the atomic section although support.c may signal after the unlock; a later signal can only delay a wake-up',
         'write faults: which iteration sees a writer error depends on the schedule (DESIGN C08/C13), not exercised here',
         'io_refresh_thread (progress display only) and the mono-thread variants (io_max = 1, trivially sequential) are not in the model; io_max = 1 is covered by the differential runs']
